@@ -18,7 +18,7 @@ STD_TYPES = {1: 1, 2: 2, 3: 4, 4: 8, 5: 1, 6: 2, 7: 4, 8: 8, 9: 4, 10: 8, 0x19: 
 PROP_TYPES = [1, 2, 3, 4, 5, 6, 7, 8, 9, 10, 0x19, 0x1A, 0x20, 0x21, 0x44]
 T_STRING, T_TIMESTAMP, T_BOOL = 0x20, 0x44, 0x21
 
-NAME_POOL = ["g", "c", "Group", "a b", "it's", "sl/ash", "", "ünï", "日本", "'", "//", "c1", "c2", "x" * 9, "\U0001F600z", "rack'/'slot", "raw'/", "TDSm"]
+NAME_POOL = ["g", "c", "Group", "a b", "it's", "sl/ash", "", "ünï", "日本", "'", "//", "c1", "c2", "x" * 9, "\U0001F600z", "rack'/'slot", "raw'/", "TDSm", "Load 100%", "%s{0}"]
 PROP_NAMES = ["p", "unit_string", "wf_increment", "名", "NI_x", "q q", "", "\ufeffp"]
 
 
